@@ -16,7 +16,7 @@ from bctmc.tally import Tally
 from bctmc import dtypes
 
 PROPERTY = 'C14'
-RULE = ('element types: every routine also on int64 / int32 / uint8 / bool copies of all 4-node graphs over {-1,0,1} and 3-node digraphs over {0,1,2} x 3 partitions (same values as for float64; integers must not raise, a boolean matrix may be rejected with TypeError); all 15 set partitions of 4 nodes x relabelling family {zero-based, reversed, x10, sparse, +10^6, float, negative, all '
+RULE = ('a 300-node ring lattice with 281 communities (more than 255 labels) for participation_coef (definition and relabelling), module_degree_zscore and the signed coefficients (relabelling); element types: every routine also on int64 / int32 / uint8 / bool copies of all 4-node graphs over {-1,0,1} and 3-node digraphs over {0,1,2} x 3 partitions (same values as for float64; integers must not raise, a boolean matrix may be rejected with TypeError); all 15 set partitions of 4 nodes x relabelling family {zero-based, reversed, x10, sparse, +10^6, float, negative, all '
         'renamings for k<=3} x W in {all 64 binary 4-node graphs, weights {0,1,2} (729) and {0,1/2,1} (729), 3-node digraphs over {0,1/2,2} (729), signed {-1,0,1} (729), binary '
         'digraphs with <=... (every 16th of 4096)} for participation_coef (3 degree modes), participation_coef_sign, '
         'module_degree_zscore (flags 0-3), diversity_coef_sign, gateway_coef_sign (2 centrality types), modularity_und/_dir '
@@ -100,6 +100,7 @@ def plan(ctx):
             units.append(('pd', n, list(range(k, min(len(parts), k + 4)))))
     units.append(('agree', 4, None))
     units.append(('ls', 5 if ctx.thorough else 4, None))
+    units.append(('large', 0, None))
     units += dtypes.units([(False, 4, (-1, 0, 1)), (True, 3, (0, 1, 2))])
     return units
 
@@ -122,7 +123,55 @@ def same_result(a, b):
                                       for x, y in zip(fa, fb))
 
 
+def work_large():
+    """more than 255 communities (a narrow label type would wrap): a 300-node ring lattice, 281 communities."""
+    t = Tally(PROPERTY)
+    n = 300
+    W = np.zeros((n, n))
+    for i in range(n):
+        for d in (1, 2, 7):
+            W[i, (i + d) % n] = W[(i + d) % n, i] = 1.0 + (d % 2)
+    ci = np.concatenate([np.ones(20, dtype=int), np.arange(2, n - 20 + 2)])
+    relab = {'reversed': ci.max() + 1 - ci, 'gapped': ci * 7 + 3, 'zero_based': ci - 1}
+    # definition: P_i = 1 - sum_m (k_i(m) / k_i)^2
+    k = W.sum(axis=1)
+    P = np.ones(n)
+    for m in np.unique(ci):
+        P -= (W[:, ci == m].sum(axis=1) / k) ** 2
+    for deg in ('undirected', 'in', 'out'):
+        st, out = guarded(bct.participation_coef, W.copy(), ci.copy(), degree=deg)
+        t.c['evaluations'] += 1
+        case = {'family': 'large', 'n': n, 'communities': int(ci.max()), 'degree': deg, 'variant': 'participation_coef[%s]' % deg}
+        if st != 'ok':
+            t.viol('participation_coef', 'raises', case, observed=out)
+            continue
+        if not orc.close(np.asarray(out, dtype=float), P):
+            t.viol('participation_coef', 'definition', case, observed=np.asarray(out)[:8], expected=P[:8])
+        for rname, rl in relab.items():
+            st2, out2 = guarded(bct.participation_coef, W.copy(), rl.copy(), degree=deg)
+            t.c['evaluations'] += 1
+            if st2 != 'ok' or not orc.close(np.asarray(out2, dtype=float), np.asarray(out, dtype=float)):
+                t.viol('participation_coef', 'label_invariance', dict(case, relabelling=rname), observed=np.asarray(out2)[:8] if st2 == 'ok' else out2,
+                       expected=np.asarray(out)[:8], tags={'relabelling': rname})
+    for fname, f in (('module_degree_zscore', lambda A, c: bct.module_degree_zscore(A, c)),
+                     ('participation_coef_sign', bct.participation_coef_sign), ('diversity_coef_sign', bct.diversity_coef_sign)):
+        st, out = guarded(f, W.copy(), ci.copy())
+        t.c['evaluations'] += 1
+        case = {'family': 'large', 'n': n, 'communities': int(ci.max()), 'variant': fname}
+        if st != 'ok':
+            continue
+        for rname, rl in relab.items():
+            st2, out2 = guarded(f, W.copy(), rl.copy())
+            t.c['evaluations'] += 1
+            if st2 != 'ok' or not same_result(('ok', out), ('ok', out2)):
+                t.viol(fname, 'label_invariance', dict(case, relabelling=rname), tags={'relabelling': rname})
+    t.c['nontrivial'] += 1
+    return t
+
+
 def work(unit):
+    if unit[0] == 'large':
+        return work_large()
     if unit[0] == 'etype':
         return dtypes.work_unit(PROPERTY, ETYPE_FUNCS, unit)
     t = Tally(PROPERTY)
@@ -283,6 +332,8 @@ def work(unit):
 
 
 def replay(rec):
+    if rec['case'].get('family') == 'large':
+        return work_large()
     if rec['case'].get('family') == 'element_types':
         return dtypes.replay(PROPERTY, ETYPE_FUNCS, rec['case'])
     t = Tally(PROPERTY)
